@@ -232,6 +232,21 @@ class Interp:
     def trust(self, name):
         self.trusted.add(name)
 
+    def unique_int(self, t):
+        """the concrete value of an integer term if the path condition determines it, else None"""
+        t = z3.simplify(t)
+        if z3.is_int_value(t):
+            return t.as_long()
+        try:
+            if self.check() != SAT:
+                return None
+            v = self.solver.model().eval(t, model_completion=True)
+            if z3.is_int_value(v) and self.check(t != v) == UNSAT:
+                return v.as_long()
+        except z3.Z3Exception:
+            pass
+        return None
+
     # ------------------------------------------------------------------ modules
     def load_module(self, modname):
         if modname in self.modules:
